@@ -23,12 +23,13 @@ def configs(tier):
         archs = [(1, 1, 1), (2, 1, 2), (2, 2, 1), (1, 2, 2)]
     else:
         archs = [(a, b, c) for a in (1, 2, 3) for b in (1, 2, 3) for c in (1, 2, 3)] + [(2, 4, 2), (2, 2, 4), (4, 1, 1), (1, 4, 4)]
-    return [{"nv": a, "nh": b, "na": c} for (a, b, c) in archs]
+    return [{"nv": a, "nh": b, "na": c} for (a, b, c) in archs] + [{"generic": "every shape"}]
 
 
 def canaries(tier):
     return [({"nv": 2, "nh": 1, "na": 1}, "spec-conjugates-wrong-side"),
-            ({"nv": 1, "nh": 1, "na": 2}, "spec-drops-aux-bias")]
+            ({"nv": 1, "nh": 1, "na": 2}, "spec-drops-aux-bias"),
+            ({"generic": "every shape"}, "generic-wrong-contract")]
 
 
 def Psi(am, ph, v, a, ctx=None, tag=""):
@@ -46,6 +47,9 @@ def Psi(am, ph, v, a, ctx=None, tag=""):
 
 
 def run_config(ctx, cfg):
+    if cfg.get("generic"):
+        from contracts import gsets
+        return gsets.run(ctx, "C02")
     from drivers import common as DC
     nv, nh, na = cfg["nv"], cfg["nh"], cfg["na"]
     canary = getattr(ctx, "canary", None)
@@ -225,6 +229,9 @@ def run_config(ctx, cfg):
 
 
 def replay(o):
+    if o["cfg"].get("generic"):
+        from contracts import gsets
+        return gsets.replay("C02", o)
     from drivers import C02 as D
     env = (o.get("witness") or {}).get("env")
     cfg = o["cfg"]
